@@ -1158,7 +1158,7 @@ impl<D: TextDecorator> SubRenderer<D> {
             old(self).options.allow_width_overflow ==> r.is_ok(), //@w @C11
             final(self).lines@.len() >= old(self).lines@.len() && final(self).lines@.take(old(self).lines@.len() as int) =~= old(self).lines@, //@w @C03
             // a stacked row ends with a full-width rule when borders are drawn (C05)
-            r.is_ok() && old(self).options.draw_borders ==> (final(self).lines@.last() matches RenderLine::Line(b) && b.w == old(self).width), //@w @C05 #stacked_row_ends_with_full_width_rule
+            r.is_ok() && old(self).options.draw_borders ==> (final(self).lines@.last() matches RenderLine::Line(b) && b.w == old(self).width), //@w @C05 @C15 #stacked_row_ends_with_full_width_rule
         //@w]
     {
         html_trace!("append_vert_row()");
